@@ -264,7 +264,7 @@ def check_precision(run, cx, cfg):
         run.check(not ar, 'rms.precision', b['path'], cfg,
                   'performs %s in fixed-width %s (line %s): the mean square must be computed in the frame\'s float companion, not through a narrower intermediate' % (
                       ar[0][0], ar[0][1], ar[0][2]) if ar else '', where=where(b))
-    run.floor('rms.precision', 'dasp_rms bodies (%s)' % cfg, n, 15)
+    run.floor('rms.precision', 'dasp_rms bodies (%s)' % cfg, n, 12)
     # positive control: the scanner sees fixed-width float arithmetic where it exists (calc_gain: -1.0 / n in f32)
     ctl = cx.body('dasp_envelope::detect::calc_gain')
     if ctl is not None:
